@@ -28,7 +28,7 @@ ASSUMPTIONS = [
 ]
 UNMODELLED = [
     "statement-level type checking inside blocks (StmtChecker/ExprSynthesizer) — generated statements are literals and bare reads that always type-check",
-    "comprehension scopes, modified blocks, attribute/subscript assignment targets (treated as reads by VariableVisitor)",
+    "comprehension scopes, modified blocks, attribute assignment targets (subscript targets `xs[k] = v` and self-referencing ann/plain/aug assignments of an int-only variable are generated)",
 ]
 MANIFEST = {
     "level_text": "Lean theorems over ALL CFGs with arbitrary event lists (no size bound): the model of check_cfg's BFS with block "
@@ -37,10 +37,14 @@ MANIFEST = {
     "analyses; in every later block the definedness test provably cannot fire and check_rows_match provably never sees rows with different "
     "keys (the KeyError branch is unreachable); a BranchTypeError is raised iff (no variable being undefined) some variable reaches a block with two different types along two followed paths and is read afterwards (branchtype_iff: soundness and completeness of the BFS comparison). The model is "
     "tied to cfg_checker.py on every run: generated programs go through the real check(), the captured real CFG is replayed in the Lean "
-    "model, and an independent path-enumeration oracle decides the property's literal statement on that CFG.",
+    "model, and an independent path-enumeration oracle decides the property's literal statement on that CFG. Paths follow real and "
+    "never-taken (dummy) edges out of every block (since /repo fix c2cff50; before, check_cfg followed dummy edges only out of the entry block). "
+    "Under the hypothesis Pruned (evaluated on every captured CFG) typed paths into reachable blocks use real edges only "
+    "(reachable_types_from_real_paths) and a 'not defined' rejection stems from a real path or from a read inside unreachable code (undef_real_or_dead).",
     "level_note": "Trusted: Lean kernel + 3 standard axioms; event abstraction of statements (reads/writes of names, literal type tags); "
     "nested function definitions and for-loop temporaries are abstracted by the harness into events; the model terminates with an explicit "
-    "fuel bound (check_terminates). Two oracles: path search on the captured real CFG and a source-level analysis independent of the CFG builder.",
+    "fuel bound (check_terminates). Three oracles: path search on the captured real CFG, and two source-level analyses independent of the CFG "
+    "builder and of the BFS (variables read before assignment; variables read with two types). Pruned is an assumption about CFGBuilder.build, checked per CFG, not proved of the builder.",
     "technique": "Lean 4 proof (BFS invariant over block signatures on top of the C09 liveness theorems) + correspondence on captured real CFGs + path-enumeration oracle",
     "design_ref": "DESIGN.md §5 C08",
     "ready": True,
